@@ -59,7 +59,8 @@ def main():
             log = open(os.path.join(tmp, f'shard{i}.log'), 'w')
             procs.append((subprocess.Popen(cmd, cwd=VERIF, env=env, stdout=log, stderr=subprocess.STDOUT), out, log))
 
-        max_wall = float(os.environ.get('VF_MAX_WALL_S', '0') or 0)
+        # wall-clock guard (a hit means inconclusive = harness error, never a violation): a hung shard must not hang the check
+        max_wall = float(os.environ.get('VF_MAX_WALL_S') or (3600 if args.tier == 'quick' else 4*3600))
         results, errors = [], []
         for p, out, log in procs:
             try:
